@@ -50,6 +50,19 @@ pub fn main() {
             }
         }
         "selftest" => crate::selftest::main(&args[2..]),
+        "values" => {
+            // vcheck values <hex>: print every collected value of every state
+            let code = hex::decode(args[2].trim_start_matches("0x")).expect("hex");
+            let cfg = crate::subj::VmCfg { permissive: true, ..Default::default() };
+            let run = crate::subj::run_vm(&code, &cfg, crate::subj::lazy()).expect("run");
+            println!("errors: {:?}", run.errors);
+            for (i, s) in run.states.iter().enumerate() {
+                println!("-- state {i} (fork point {})", s.fork_point());
+                for v in s.clone().all_values() {
+                    println!("   {v}");
+                }
+            }
+        }
         "analyze" => {
             // vcheck analyze <hex> [permissive]
             let code = hex::decode(args[2].trim_start_matches("0x")).expect("hex");
